@@ -16,7 +16,7 @@ func init() { register("C06", checkC06) }
 
 // loopIdx: an index expression built from a loop variable — `(f.L3/rangeindex + 1)` for range loops,
 // `f.L3/i` for index loops — whatever the loop form, it stands for "the element of this iteration".
-var loopIdx = regexp.MustCompile(`\[\(?[A-Za-z0-9_.$]+\.L\d+/[A-Za-z0-9_]+(?: \+ 1\))?\]`)
+var loopIdx = regexp.MustCompile(`\[\(?[A-Za-z0-9_.$#/]+\.L\d+(?:#\d+)?/[A-Za-z0-9_]+(?: \+ 1\))?\]`)
 
 func normIdx(s string) string { return loopIdx.ReplaceAllString(s, "[*]") }
 
